@@ -336,6 +336,11 @@ impl<'s> Tokenizer<'s> {
         self.source
     }
 
+    /// Returns the empty span at the current location of the tokenizer.
+    pub fn current_span(&self) -> Span {
+        self.span(self.loc())
+    }
+
     /// Produces the next token from the tokenizer.
     pub fn next_token(&mut self) -> Result<Option<(Token<'s>, Span)>, Error> {
         loop {
